@@ -25,6 +25,8 @@ def configs(tier):
     # ... and when it is reached through compute_features: the caller's thresholds are the ones applied,
     # whatever the (amplitude-method) burst options contain
     out += [{'rows': r, 'route': bk} for r in (3, 4) for bk in ('none', 'burst_m')]
+    # ... and when no thresholds are given at all: the documented defaults (0, .5, .5, .8; three cycles)
+    out += [{'rows': r, 'route': 'defaults'} for r in (4, 5)]
     return out
 
 
@@ -87,6 +89,10 @@ def run(ctx, cfg):
                 bk = {'min_n_cycles': mb}
             tk = dict(kw)
             tk['min_n_cycles'] = m
+            if cfg['route'] == 'defaults':
+                tk = None
+                thr = {'amp_fraction': 0.0, 'amp_consistency': 0.5, 'period_consistency': 0.5, 'monotonicity': 0.8}
+                m = 3
             try:
                 out = ff.compute_features(ctx.np.zeros(4), 500.0, (8.0, 12.0), burst_method='cycles', burst_kwargs=bk,
                                           threshold_kwargs=tk)
